@@ -77,6 +77,8 @@ type PathCtx struct {
 	userData    map[string]value
 	inSched     bool
 	inBlock     bool
+	tryDepth    int
+	tryEffects  int
 	randN, randRun int
 	pins        map[*Term]uint64
 	noteTexts   []string
